@@ -9,7 +9,7 @@
 From Coq Require Import ZArith List Bool QArith Qcanon Lia.
 From Coq Require Import Permutation.
 From SG Require Import Base.QcUtil Model.CombiScheme Model.StdCombi Model.ExtendSplit Model.ESInterp
-     Proofs.StdCombiSum Proofs.StdNodal Proofs.ESGeom Proofs.ESInv Proofs.ESTree Proofs.ESCombi Proofs.ESV0 Proofs.ESNodal Proofs.ESDict Proofs.ESShift Proofs.ESRestart.
+     Proofs.StdCombiSum Proofs.StdNodal Proofs.ESGeom Proofs.ESInv Proofs.ESTree Proofs.ESCombi Proofs.ESV0 Proofs.ESNodal Proofs.ESDict Proofs.ESShift Proofs.ESRestart Proofs.ESAssignFn.
 Import ListNotations.
 Open Scope Z_scope.
 
@@ -280,6 +280,22 @@ Theorem C07_every_area_valid_local_combi_v0_with_restarts :
   In x (st_objs st) -> valid_local_combi (S (S n)) (area_grids (st_cp st) x) = true.
 Proof. exact v0_every_area_valid2. Qed.
 Print Assumptions C07_every_area_valid_local_combi_v0_with_restarts.
+
+(* ---- the point assignment has no hidden state: it is a function of the refinement tree seen by
+   get_points_in_areas_recursive and of the point list only (no counter, no memory of earlier queries); restarts
+   (evaluation of all areas) and observation passes leave the assignment of EVERY point list unchanged *)
+Theorem C07_assignment_function_of_tree_and_points : forall st1 st2 pts,
+  current_tree st1 = current_tree st2 -> assign_points (current_tree st1) pts = assign_points (current_tree st2) pts.
+Proof. exact assignment_function_of_tree_and_points. Qed.
+Theorem C07_restart_keeps_assignment : forall st bens pts,
+  assign_points (current_tree (restart st bens)) pts = assign_points (current_tree st) pts.
+Proof. exact restart_keeps_assignment. Qed.
+Theorem C07_observation_keeps_assignment : forall st pts,
+  assign_points (current_tree (fst (observe_coarsen st))) pts = assign_points (current_tree st) pts.
+Proof. exact observe_keeps_assignment. Qed.
+Print Assumptions C07_assignment_function_of_tree_and_points.
+Print Assumptions C07_restart_keeps_assignment.
+Print Assumptions C07_observation_keeps_assignment.
 
 (* ---- non-vacuity of the general theorems.  d = 3, lmin = 2, lmax = 6, coarsening 3 (a case with many collisions in the
    dictionary: 31 component grids, 4 of them computed): the computed grids are the standard scheme of level
